@@ -19,19 +19,27 @@ from ..graph import Mismatch
 LEVEL = "model_checking"
 MANIFEST = dict(
     category="model_checking",
-    text="RingPrio.tla / Subtraj.tla (PRIO) model add / sample / update-priority / reset-max with natural-number priorities; TLC checks Proportional (each slot is selected by exactly prio*mask of the Total ticks), OnlyFilled/NeverMasked, MaxDominates, NewGetsMax, UpdateFrame, ResetExact and the importance-weight laws on the complete bounded state graph; every transition (every tick vector of every reachable priority vector) is replayed into LAP, PrioritizedReplayBuffer (stratified), SubtrajectoryReplayBufferPER and the multi-task wrapper with a scripted generator, comparing selected indices, rows, priority arrays, tracked maximum and beta=1 weights. Order clauses for lap_priority / per_priority / general-beta weights are decided by TLC on float32 ordinals of recorded tables.",
-    note="integer priorities 1..3, N<=3, batch<=2 (float priorities of widely different magnitude are outside the model); uniform variates represented by half-integer ticks; trusted: harness/bufkit.py, stub generator, ordinal coding, TLC",
+    text="RingPrio.tla / Subtraj.tla (PRIO) model add / sample / update-priority / reset-max with natural-number priorities in units of 1 and of 1/2 of the initial tracked maximum (update values below and above it; resets and additions with every stored priority below 1.0 are reachable and counted); TLC checks Proportional (each slot is selected by exactly prio*mask of the Total ticks), OnlyFilled/NeverMasked, MaxDominates, NewGetsMax, NewAfterReset, UpdateFrame, ResetExact and the importance-weight laws on the complete bounded state graph; every transition (every tick vector of every reachable priority vector) is replayed into LAP, PrioritizedReplayBuffer (stratified), SubtrajectoryReplayBufferPER and the multi-task wrapper with a scripted generator, comparing selected indices, rows, priority arrays, tracked maximum and beta=1 weights. Order clauses for lap_priority / per_priority / general-beta weights are decided by TLC on float32 ordinals of recorded tables.",
+    note="priorities 1..3 and 0.5, 1.0, 1.5, N<=4, batch<=2 (float priorities of widely different magnitude are outside the model); uniform variates represented by half-integer ticks; trusted: harness/bufkit.py, stub generator, ordinal coding, TLC",
     technique="TLA+ spec + TLC exhaustive state graph; transition-coverage replay with scripted uniform variates; TLC-evaluated order predicates on recorded function tables",
 )
 INV = ["Proportional", "OnlyFilled", "MaxDominates", "Positive", "WeightsOK", "ResetExact"]
-PROPS = ["UpdateFrame", "NewGetsMax"]
+PROPS = ["UpdateFrame", "NewGetsMax", "NewAfterReset"]
+
+
+def _default(unit):
+    """cfg entry (definition override) selecting RingPrio!Default, the model value of the initial tracked maximum."""
+    return {} if unit == 1 else {"Default": tlc.Subst(f"Default{unit}")}
 
 
 class PrioAdapter:
-    def __init__(self, kind, n, k):
+    """unit: the model's Default - a model priority p is the real priority p / unit (unit 2: the values 1, 2, 3 of the
+    model are 0.5, 1.0 = the initial max_priority, 1.5 in the code; all exact in binary floating point)."""
+
+    def __init__(self, kind, n, k, unit=1):
         from rl_blox.blox import replay_buffer as rb
 
-        self.kind, self.k, self.n = kind, k, n
+        self.kind, self.k, self.n, self.unit = kind, k, n, unit
         self.profile = bufkit.default_profile()
         cls = {"LAP": rb.LAP, "PER": rb.PrioritizedReplayBuffer}[kind]
         inner = cls(n)
@@ -68,9 +76,10 @@ def step(ad: PrioAdapter, op, args, exp, pre, post):
         else:
             def strat(lo, hi, size):
                 lo, hi = np.broadcast_to(lo, pts.shape), np.broadcast_to(hi, pts.shape)
-                if not (np.all(lo <= pts) and np.all(pts < hi)):
-                    raise Mismatch(f"strata [{lo.tolist()},{hi.tolist()}) do not contain the model's stratified points {pts.tolist()} (total {total})")
-                return pts
+                real = pts / ad.unit  # the strata are cut from the real cumulative mass total / unit
+                if not (np.all(lo <= real) and np.all(real < hi)):
+                    raise Mismatch(f"strata [{lo.tolist()},{hi.tolist()}) do not contain the model's stratified points {real.tolist()} (total {total / ad.unit})")
+                return real
 
             rng.push("uniform", strat)
             batch, ratio = o.sample_batch(len(ticks), rng, beta=1.0) if ad.k == 1 else o.sample_batch(len(ticks), rng=rng, beta=1.0)
@@ -92,9 +101,16 @@ def step(ad: PrioAdapter, op, args, exp, pre, post):
             if w.shape != (len(want),) or not np.allclose(w, want, rtol=1e-12, atol=0):
                 raise Mismatch(f"importance weights {w.tolist()} differ from (min p / p_i) = {want}")
     elif op == "UpdatePriority":
-        o.update_priority(np.asarray(args[0], dtype=float))
+        o.update_priority(np.asarray(args[0], dtype=float) / ad.unit)
     elif op == "ResetMax":
         o.reset_max_priority()
+        if post is not None:  # the model's post-state: the true maximum of every non-empty task, whichever side of 1.0
+            for t, b in enumerate(ad.buffers()):
+                mp, want = float(b.priority.max_priority) * ad.unit, post["bufs"][str(t)]["maxPrio"]
+                if mp != want:
+                    stored = [float(x) for x in b.priority.priority[: len(b)]]
+                    raise Mismatch(f"tracked maximum after reset is {mp / ad.unit}, true maximum of the stored priorities {stored} is {want / ad.unit}"
+                                   + (f" (task {t})" if ad.k > 1 else ""), code="tracked_max_is_not_true_max", want=post)
     else:  # pragma: no cover
         raise AssertionError(op)
 
@@ -106,13 +122,13 @@ def project(ad: PrioAdapter):
         pr = []
         for i in range(ad.n):
             if i < ln:
-                x = float(b.priority.priority[i])
+                x = float(b.priority.priority[i]) * ad.unit
                 if x != int(x):
-                    raise Mismatch(f"priority {x} is not one of the supplied values")
+                    raise Mismatch(f"priority {x / ad.unit} is not one of the supplied values")
                 pr.append(int(x))
             else:
                 pr.append(0)
-        mp = float(b.priority.max_priority)
+        mp = float(b.priority.max_priority) * ad.unit
         # last-batch record as the class under test keeps it
         sampled = [int(x) for x in np.asarray(b.priority.sampled_indices).reshape(-1)]
         bufs[str(t)] = {"store": store, "prio": pr, "ins": ins, "len": ln, "maxPrio": int(mp) if mp == int(mp) else mp, "sampled": sampled}
@@ -127,31 +143,111 @@ def project(ad: PrioAdapter):
 def _job(which, args):
     if which == "subtraj":
         return sb.config_job(*args)
+    if which == "canary":
+        return canary_job(*args)
     return ring_job(*args)
 
 
-def ring_job(kind, k, n, m, b, strat, workers=4):
+def _below(b, unit):
+    """model buffer state: non-empty and every stored priority below the initial maximum"""
+    return b["len"] > 0 and all(p < unit for p in b["prio"][: b["len"]])
+
+
+def _reset_canary(G, kind, k, n, unit, bind=True):
+    """Binding canary on the class `reset while every stored priority of a task is below the initial maximum`: the
+    shortest TLC history into such a state is replayed, then the reset is compared with a post-state in which the
+    tracked maximum is the initial value (what a floor at 1.0 yields) - the comparison must notice.  Returns the
+    number of such reset transitions in the graph; MachineryError if there is none (lattice too poor) or the corrupted
+    expectation is accepted."""
+    root = G.roots()[0]
+    parent, order = {root: None}, [root]
+    for key in order:  # breadth first: shortest histories
+        for op, args, exp, k2 in G.out.get(key, ()):
+            if k2 not in parent:
+                parent[k2] = (key, {"op": op, "args": args, "exp": exp})
+                order.append(k2)
+    targets = [(key, e) for key in order for e in G.out.get(key, ()) if e[0] == "ResetMax" and any(_below(b, unit) for b in G.state[key]["bufs"].values())]
+    if not targets:
+        raise tlc.MachineryError(f"lattice canary: no reset with every stored priority below the initial maximum in RingPrio {kind} K={k} N={n} unit={unit}")
+    if not bind:  # the code under test already deviates from the model in this graph: reported as violations
+        return len(targets)
+    key, (op, args, exp, k2) = targets[0]
+    path = []
+    while parent[key] is not None:
+        key, st = parent[key]
+        path.append(st)
+    ad = PrioAdapter(kind, n, k, unit)
+    for st in reversed(path):
+        step(ad, st["op"], st["args"], st["exp"], None, None)
+    bad = json.loads(json.dumps(G.state[k2]))
+    for t, b in bad["bufs"].items():
+        if _below(b, unit):
+            b["maxPrio"] = unit
+    try:
+        step(ad, op, args, exp, None, bad)
+    except Mismatch as m:
+        if m.code != "tracked_max_is_not_true_max":
+            raise tlc.MachineryError(f"binding canary: corrupted reset expectation rejected for another reason: {m.what}")
+    else:
+        raise tlc.MachineryError("binding canary: a tracked maximum of 1.0 after a reset over priorities below 1.0 accepted")
+    return len(targets)
+
+
+def canary_job(subtraj_cfgs, workers=4):
+    """Deviation and reachability canaries (small TLC runs); returns the list of failures (empty = fine)."""
+    bad = []
+    base = dict(K=1, N=2, MaxAdds=4, PrioVals={1, 3}, MaxBatch=1, STRAT=False, EMIT=False)
+    # new transitions not getting the maximum priority must be refuted
+    r = tlc.run("RingPrio", tlc.cfg_text(next="NextBad", constants=base, properties=["NewGetsMax"]), workers=workers, tag="rpbad")
+    if not r.violated:
+        bad.append("canary: AddBad not refuted by NewGetsMax")
+    # reset_max_priority with the initial value as a floor: refuted exactly when the lattice reaches below the initial maximum
+    c2 = dict(base, MaxAdds=3, **_default(2))
+    r = tlc.run("RingPrio", tlc.cfg_text(next="NextBadReset", constants=c2, invariants=["ResetExact"]), workers=workers, tag="rpbadr")
+    if r.violated != "ResetExact":
+        bad.append(f"canary: ResetMaxFloor not refuted by ResetExact in the lattice {{1,3}}/2 ({r.violated})")
+    r = tlc.run("RingPrio", tlc.cfg_text(next="NextBadReset", constants=c2, properties=["NewAfterReset"]), workers=workers, tag="rpbadn")
+    if not r.violated:
+        bad.append("canary: ResetMaxFloor not refuted by NewAfterReset in the lattice {1,3}/2")
+    r = tlc.run("RingPrio", tlc.cfg_text(constants=dict(c2, K=2), invariants=["NoResetAllBelow"]), workers=workers, tag="rpreach")
+    if r.violated != "NoResetAllBelow":
+        bad.append("canary: no reset of a full buffer with every priority below the initial maximum reachable (K=2, {1,3}/2)")
+    r = tlc.run("RingPrio", tlc.cfg_text(constants=c2, invariants=["NoResetAllAbove"]), workers=workers, tag="rpreach")
+    if r.violated != "NoResetAllAbove":
+        bad.append("canary: no reset of a full buffer with every priority above the initial maximum reachable ({1,3}/2)")
+    # the prioritized subtrajectory buffer: every configuration with unit > 1 must reach a reset below the initial maximum
+    for n, h, m, b, unit in subtraj_cfgs:
+        c = dict(N=n, H=h, MaxAdds=m, PRIO=True, PrioVals={1, 3}, MaxBatch=b, EMIT=False, PrioDefault=tlc.Subst(f"PrioDefault{unit}"))
+        r = tlc.run("Subtraj", tlc.cfg_text(constants=c, invariants=["NeverAllBelow"]), workers=workers, tag="streach")
+        if r.violated != "NeverAllBelow":
+            bad.append(f"canary: Subtraj N={n} H={h} adds<={m} batch<={b} unit={unit} reaches no reset below the initial maximum")
+    return {"canary": bad}
+
+
+def ring_job(kind, k, n, m, b, strat, workers=4, unit=1, vals=(1, 3)):
     out = {"tlc": [], "violations": [], "edges": 0, "nontrivial": 0, "sample": None}
-    c = dict(K=k, N=n, MaxAdds=m, PrioVals={1, 3}, MaxBatch=b, STRAT=strat, EMIT=False)
+    c = dict(K=k, N=n, MaxAdds=m, PrioVals=set(vals), MaxBatch=b, STRAT=strat, EMIT=False, **_default(unit))
     r = tlc.run("RingPrio", tlc.cfg_text(constants=c, invariants=INV, properties=PROPS), tag="rp", timeout=1500, workers=workers)
-    out["tlc"].append({"name": f"RingPrio {kind} K={k} N={n} adds<={m} batch<={b}", "distinct": r.distinct, "generated": r.generated, "depth": r.depth, "wall_s": round(r.wall_s, 1)})
+    out["tlc"].append({"name": f"RingPrio {kind} K={k} N={n} adds<={m} batch<={b} priorities {sorted(vals)}/{unit}", "distinct": r.distinct, "generated": r.generated, "depth": r.depth, "wall_s": round(r.wall_s, 1)})
     if not r.ok:
         out["violations"].append((f"spec:RingPrio:{r.violated}", f"design-level violation {r.violated}", r.error_trace))
         return out
     c["EMIT"] = True
     g = tlc.run("RingPrio", tlc.cfg_text(constants=c, view="View"), workers=1, tag="rpgen", timeout=1500)
     G = graph.Graph(g.emitted)
-    res = graph.cover(G, G.roots()[0], lambda: PrioAdapter(kind, n, k), step, project)
+    res = graph.cover(G, G.roots()[0], lambda: PrioAdapter(kind, n, k, unit), step, project)
     out["edges"] = res["edges_tested"]
     # histories on one live object (no cloning between calls): state the projection does not show must not matter
-    wres = graph.walks(G, G.roots()[0], lambda: PrioAdapter(kind, n, k), step, project, n=16, max_len=3 * m, seed=n * 31 + m)
+    wres = graph.walks(G, G.roots()[0], lambda: PrioAdapter(kind, n, k, unit), step, project, n=16, max_len=3 * m, seed=n * 31 + m)
     out["edges"] += wres["walks"]
     res["violations"] += wres["violations"]
     out["nontrivial"] = sum(1 for kk, es in G.out.items() for e in es if G.state[kk]["cnt"] > 0)
+    if unit > 1:
+        out["resets_below"] = _reset_canary(G, kind, k, n, unit, bind=not res["violations"])
     cls = {"LAP": "LAP", "PER": "PrioritizedReplayBuffer"}[kind] + ("[multi-task]" if k > 1 else "")
     for v in res["violations"]:
         out["violations"].append((f"{cls}:{v['path'][-1]['op']}:{v['code']}", f"{cls} (N={n}): {v['what']}",
-                                  {"kind": kind, "K": k, "N": n, "path": v["path"], "detail": v["detail"]}))
+                                  {"kind": kind, "K": k, "N": n, "unit": unit, "path": v["path"], "detail": v["detail"]}))
     out["sample"] = {"class": cls, "transition": g.emitted[len(g.emitted) // 2]}
     return out
 
@@ -183,17 +279,19 @@ def _tables(seed):
             raise Mismatch(f"{fn}_priority with alpha=1 returns a non-dyadic value on dyadic inputs: {y.tolist()}")
         tabs.append({"kind": "prio", "fn": fn, "exact": True, "x": [fr(v) for v in xd], "y": [fr(v) for v in y], "p": fr(p),
                      "xo": [exact.ord32(v) for v in xd], "yo": [exact.ord32(v) for v in y], "zero": zero})
-    # importance weights for general beta on a PER buffer with varied priorities
+    # importance weights for general beta on a PER buffer with varied priorities: whole numbers 1..8, and the same in
+    # units of 1/8 (all at or below the initial maximum 1.0, as |delta|**alpha + eps yields for small TD errors)
     for beta in (0.0, 0.4, 0.7, 1.0):
-        buf = rb.PrioritizedReplayBuffer(6)
-        prof = bufkit.default_profile()
-        for i in range(1, 7):
-            buf.add_sample(**prof.encode(i))
-        pr = [int(v) for v in rs.integers(1, 9, size=6)]
-        buf.priority.priority[:6] = pr
-        idx = np.asarray(rs.integers(0, 6, size=5))
-        w = np.asarray(buf.compute_importance_ratio(idx, beta), dtype=np.float32)
-        tabs.append({"kind": "weights", "p": [pr[j] for j in idx], "wo": [exact.ord32(v) for v in w], "zero": zero, "one": exact.ord32(1.0), "beta": str(beta)})
+        for unit in (1, 8):
+            buf = rb.PrioritizedReplayBuffer(6)
+            prof = bufkit.default_profile()
+            for i in range(1, 7):
+                buf.add_sample(**prof.encode(i))
+            pr = [int(v) for v in rs.integers(1, 9, size=6)]
+            buf.priority.priority[:6] = np.asarray(pr, dtype=float) / unit
+            idx = np.asarray(rs.integers(0, 6, size=5))
+            w = np.asarray(buf.compute_importance_ratio(idx, beta), dtype=np.float32)
+            tabs.append({"kind": "weights", "p": [pr[j] for j in idx], "unit": unit, "wo": [exact.ord32(v) for v in w], "zero": zero, "one": exact.ord32(1.0), "beta": str(beta)})
     return tabs
 
 
@@ -216,28 +314,41 @@ def run(rep):
         tlc.sany(m)
     rep.rule = (
         "TLC enumerates the bounded state graph of RingPrio / Subtraj(PRIO) incl. every tick vector (uniform variate class) of every reachable "
-        "priority vector; each transition is replayed into the real buffers; non-trivial = pre-state has at least one stored transition"
+        "priority vector, over whole-number priorities and over a lattice with values below and above the initial maximum 1.0 (resets with every "
+        "stored priority below it are counted); each transition is replayed into the real buffers; non-trivial = pre-state has at least one stored transition"
     )
     ev = nt = 0
-    cfgs = [("LAP", 1, 3, 4, 2, False), ("PER", 1, 3, 4, 2, True), ("LAP", 2, 2, 3, 1, False)] if quick else [
-        ("LAP", 1, 2, 5, 2, False), ("LAP", 1, 3, 5, 2, False), ("PER", 1, 3, 5, 2, True), ("PER", 1, 2, 5, 2, True),
-        ("LAP", 2, 2, 4, 1, False), ("PER", 2, 2, 4, 1, True), ("LAP", 1, 4, 5, 1, False)]
+    # (kind, K, N, adds, batch, stratified, unit): unit 1 = whole-number priorities 1..3 (initial maximum 1 is the smallest
+    # value there is); unit 2 = the model values 1, 2, 3 are 0.5, 1.0 (initial maximum), 1.5: update_priority writes values
+    # below and above the initial maximum, so resets / additions with every stored priority below 1.0 are explored
+    cfgs = [("LAP", 1, 3, 4, 2, False, 1), ("PER", 1, 3, 4, 2, True, 1), ("LAP", 2, 2, 3, 1, False, 1),
+            ("LAP", 1, 3, 4, 1, False, 2), ("PER", 1, 2, 4, 2, True, 2), ("LAP", 2, 2, 2, 1, False, 2)] if quick else [
+        ("LAP", 1, 2, 5, 2, False, 1), ("LAP", 1, 3, 5, 2, False, 1), ("PER", 1, 3, 5, 2, True, 1), ("PER", 1, 2, 5, 2, True, 1),
+        ("LAP", 2, 2, 4, 1, False, 1), ("PER", 2, 2, 4, 1, True, 1), ("LAP", 1, 4, 5, 1, False, 1),
+        ("LAP", 1, 3, 4, 2, False, 2), ("PER", 1, 3, 4, 2, True, 2), ("LAP", 1, 2, 5, 2, False, 2), ("PER", 1, 2, 5, 2, True, 2),
+        ("LAP", 2, 2, 3, 1, False, 2), ("PER", 2, 2, 3, 1, True, 2), ("LAP", 1, 4, 5, 1, False, 2)]
     from .. import par
 
-    jobs = [(kind, k, n, m, b, strat, 4) for kind, k, n, m, b, strat in cfgs]
-    sjobs = [(n, h, m, True, (1, 3), b, tuple(sb.INV_C04 + sb.INV_C08), "(C08)", False, rep.seed, 4)
-             for n, h, m, b in ([(3, 1, 3, 2), (4, 2, 4, 1)] if quick else [(3, 1, 5, 2), (4, 2, 6, 2), (5, 2, 6, 1)])]
-    outs = par.pmap(_job, [("ring", j) for j in jobs] + [("subtraj", j) for j in sjobs], procs=5)
+    jobs = [(kind, k, n, m, b, strat, 4, unit) for kind, k, n, m, b, strat, unit in cfgs]
+    scfgs = [(3, 1, 3, 2, 1), (4, 2, 4, 1, 1), (3, 1, 3, 1, 2)] if quick else [
+        (3, 1, 5, 2, 1), (4, 2, 6, 2, 1), (5, 2, 6, 1, 1), (3, 1, 3, 2, 2), (3, 1, 4, 1, 2), (4, 2, 4, 1, 2)]
+    sjobs = [(n, h, m, True, (1, 3), b, tuple(sb.INV_C04 + sb.INV_C08), f"(C08, priorities [1, 3]/{unit})", False, rep.seed, 4, False, unit, tuple(sb.PROPS_C08))
+             for n, h, m, b, unit in scfgs]
+    # the pool hands the jobs out in this order: the subtrajectory replays are the longest
+    alljobs = [("subtraj", j) for j in sjobs] + [("canary", ([c for c in scfgs if c[4] > 1], 4))] + [("ring", j) for j in jobs]
+    outs = par.pmap(_job, alljobs, procs=8)
+    below = 0
     for o in outs:
+        if "canary" in o:
+            if o["canary"]:
+                raise tlc.MachineryError("; ".join(o["canary"]))
+            continue
+        below += o.get("resets_below", 0)
         r = sb.merge(rep, o)
         if r:
             ev += r[0]
             nt += r[1]
-    # canary: new transitions not getting the maximum priority must be refuted
-    c = dict(K=1, N=2, MaxAdds=4, PrioVals={1, 3}, MaxBatch=1, STRAT=False, EMIT=False)
-    r = tlc.run("RingPrio", tlc.cfg_text(next="NextBad", constants=c, properties=["NewGetsMax"]), workers=4, tag="rpbad")
-    if not r.violated:
-        raise tlc.MachineryError("canary: AddBad not refuted by NewGetsMax")
+    rep.extra["resets_with_all_priorities_below_initial_maximum"] = below
     # order predicates on recorded tables
     try:
         tabs = _tables(rep.seed)
@@ -259,7 +370,7 @@ def run(rep):
         rep.sample({"table": {k: v for k, v in tabs[-1].items()}})
     rep.evaluations, rep.distinct, rep.exhaustive = ev, nt, True
     rep.assumptions += [
-        "priorities are small naturals; proportionality for float priorities spanning many orders of magnitude is not decided",
+        "priorities are small multiples of 1 or of 1/2 (exact in binary floating point); proportionality for float priorities spanning many orders of magnitude is not decided",
         "beta=1 weights compared with rtol 1e-12 (four float64 operations); general beta only by order predicates on float32-rounded ordinals (monotone rounding)",
         "lap/per priority values only for alpha=1 (exact); other alpha by positivity/monotonicity on ordinals",
     ]
@@ -275,11 +386,15 @@ def replay(path, rep):
         r = _check_tables(rep, d["tables"])
         print("tables ok" if r.ok else f"VIOLATION property=C08 replay={path}")
         return 0 if r.ok else 1
-    ad = PrioAdapter(d["kind"], d["N"], d["K"])
+    ad = PrioAdapter(d["kind"], d["N"], d["K"], d.get("unit", 1))
+    want = (d.get("detail") or {}).get("want")
     try:
-        for st in d["path"]:
+        for i, st in enumerate(d["path"]):
             step(ad, st["op"], st["args"], st.get("exp"), None, None)
-            print(st["op"], st["args"], "->", project(ad))
+            got = project(ad)
+            print(st["op"], st["args"], "->", got)
+            if i == len(d["path"]) - 1 and want is not None and graph.canon(got) != graph.canon(want):
+                raise Mismatch(f"state after the last step differs from the model's {want}")
     except Exception as m:
         print("VIOLATION property=C08 replay=" + path)
         print("  ", repr(m))
